@@ -104,7 +104,12 @@ fn pick_col<'a>(rng: &mut Rng, s: &'a Src, kinds: &str) -> Option<&'a (String, &
 fn gen_scalar(rng: &mut Rng, s: &Src, depth: u32) -> String {
     let num = pick_col(rng, s, "if").map(|c| c.0.clone()).unwrap_or("1".into());
     if depth == 0 { return num; }
-    match rng.below(17) {
+    match rng.below(20) {
+        // comparisons whose threshold sits exactly on a bound of some column (0, 3, 5, 10, 100, -5, -10 are bounds of the harness tables),
+        // projected as a flag, inside a CASE, or as a range test
+        17 => { let k = *rng.pick(&[0i64, 3, 5, 10, 100, -5, -10]); let op = *rng.pick(&[">=", "<=", ">", "<"]); format!("CASE WHEN {num} {op} {k} THEN 1000 ELSE {num} END") }
+        18 => { let k = *rng.pick(&[0i64, 3, 5, 10, 100, -5, -10]); let op = *rng.pick(&[">=", "<=", "=", "<>"]); format!("CASE WHEN {num} {op} {k} THEN 'edge' ELSE 'in' END") }
+        19 => { let k = *rng.pick(&[3i64, 5, 10, 100]); format!("CASE WHEN {num} BETWEEN {k} AND {} THEN 1 ELSE 0 END", k + 5) }
         // unary minus over a sum / difference (precedence of the rendered minus)
         15 => format!("- ({num} + {})", rng.range(1, 4)),
         16 => { let o = pick_col(rng, s, "if").map(|c| c.0.clone()).unwrap_or("1".into()); format!("- ({num} - {o})") }
